@@ -346,6 +346,17 @@ func judge(r *ev.Run, bin, tmp string, c config, res result) {
 		if err != nil || len(want) == 0 || string(b) != want[f] {
 			complete = false
 		}
+		// -name honoured: every file of the package says `package <name>`, spelled as it was given (the golden bytes
+		// come from the tool itself, so this is checked against the name)
+		if err == nil {
+			first, _, _ := strings.Cut(string(b), "\n")
+			if i := strings.Index(string(b), "\npackage "); !strings.HasPrefix(first, "package ") && i >= 0 {
+				first, _, _ = strings.Cut(string(b)[i+1:], "\n")
+			}
+			if strings.TrimSpace(first) != "package "+name {
+				complete = false
+			}
+		}
 	}
 	_, pkgExisted := res.before[relTo(res.dir, res.pkgDir)]
 	if pkgExisted {
